@@ -159,7 +159,7 @@ class C11(Check):
                   'failure positions are few and swept: k in 0..2 for embedded applications and constructor lists); histories are sampled.')
     level_note = 'Trusted: the model routing tables and the dispatch model shared with C06.'
     forbidden_probes = ('failing-op-succeeded',)
-    required_probes = ('child-changed-after-subapplication-was-made', 'one-route-in-two-applications-with-equal-typed-stacks', 'sub-kth-fails-with-other-exception-type', 'strict-application', 'context-rendered-by-factory', 'embed-with-rebind-render', 'failed-add-unchanged', 'sub-kth-fails-unchanged', 'ctor-failed', 'route-bound-twice', 'embedded-then-child-changed',
+    required_probes = ('re-embedded-after-an-inner-application-was-dropped', 'application-reference-dropped-while-embedded', 'child-changed-after-subapplication-was-made', 'one-route-in-two-applications-with-equal-typed-stacks', 'sub-kth-fails-with-other-exception-type', 'strict-application', 'context-rendered-by-factory', 'embed-with-rebind-render', 'failed-add-unchanged', 'sub-kth-fails-unchanged', 'ctor-failed', 'route-bound-twice', 'embedded-then-child-changed',
                        'embed-depth-2', 'add-at-index')
 
     # ---- generation --------------------------------------------------------
@@ -184,6 +184,7 @@ class C11(Check):
             return {'pattern': rng.choice(pats), 'methods': rng.choice(R.METHOD_SETS), 'out': rng.choice(R.OUTCOMES + ['ctx'] * 3),
                     'tag': 't%d' % tagn[0]}
         live = set()
+        parents = {}     # child -> applications it was embedded in
         nops = rng.randint(8, 24 if tier == 'quick' else 64)
         for n in range(nops):
             r = rng.random()
@@ -200,6 +201,24 @@ class C11(Check):
                 continue
             i = rng.choice(sorted(live))
             idx = rng.choice([None, None, 0, 1, 2, 5])
+            if r > 0.94 and len(live) > 2:
+                # the program drops its own reference to an application (it may live on inside others) and the collector
+                # runs; afterwards an application that embeds it is itself embedded somewhere else
+                held = sorted(c for c in live if parents.get(c, set()) & live)
+                if held:
+                    i = rng.choice(held)
+                ops.append({'op': 'forget', 'app': i})
+                live.discard(i)
+                ps = sorted(parents.get(i, set()) & live)
+                if ps:
+                    pp = rng.choice(ps)
+                    qs = sorted(live - set([pp]))
+                    if qs:
+                        q = rng.choice(qs)
+                        ops.append({'op': 'embed', 'app': q, 'child': pp, 'prefix': rng.choice(['/again', '/v1/']), 'index': None,
+                                    'form': rng.choice(['tuple', 'subapp']), 'rebind': False})
+                        parents.setdefault(pp, set()).add(q)
+                continue
             if r < 0.3:
                 ops.append({'op': 'add_route', 'app': i, 'route': rng.randrange(len(routes)), 'index': idx})
             elif r < 0.4:
@@ -212,6 +231,7 @@ class C11(Check):
                     continue
                 ops.append({'op': 'embed', 'app': i, 'child': j, 'prefix': rng.choice(['/p', '/p/', '/sub/deep', '/']),
                             'index': idx, 'form': rng.choice(['tuple', 'subapp', 'prepared', 'prepared']), 'rebind': rng.random() < 0.3})
+                parents.setdefault(j, set()).add(i)
             elif r < 0.75:
                 ops.append({'op': 'add_fail', 'app': i, 'kind': frng.choice(FAIL_KINDS), 'k': frng.randint(0, 2), 'index': idx,
                             'entries': [entry() for _ in range(3)]})
@@ -292,6 +312,8 @@ class C11(Check):
             i = op.get('app')
             if kind != 'new_app' and i not in pool.apps:
                 raise InvalidPlan('op on an application that does not exist')
+            if kind == 'embed' and op.get('child') not in pool.apps:
+                raise InvalidPlan('embedding an application the program no longer holds')
             label = kind
             if kind == 'new_app':
                 if i in pool.apps:
@@ -387,6 +409,8 @@ class C11(Check):
                 res.nontrivial = True
                 if any(x['prefix'] for x in pool.model[j]):
                     res.probe('embed-depth-2')
+                if any(set(x['chain']) & getattr(pool, 'forgotten', set()) for x in pool.model[j]):
+                    res.probe('re-embedded-after-an-inner-application-was-dropped')
                 pool.embedded = getattr(pool, 'embedded', set()) | set([j])
             elif kind == 'add_fail':
                 bad = self.failing_entry(pool, i, op['kind'], op['k'], op['entries'])
@@ -402,6 +426,14 @@ class C11(Check):
                 else:
                     # not C11's business in itself (scenario self-check); the table must still be what it was -- checked below
                     res.probe('failing-op-succeeded')
+            elif kind == 'forget':
+                import gc
+                embedded_somewhere = i in getattr(pool, 'embedded', ())
+                del pool.apps[i], pool.model[i]
+                getattr(pool, 'prepared', {}).pop(i, None)
+                gc.collect()
+                res.probe('application-reference-dropped' + ('-while-embedded' if embedded_somewhere else ''))
+                pool.forgotten = getattr(pool, 'forgotten', set()) | set([i])
             elif kind == 'req':
                 pass
             else:
